@@ -1,0 +1,88 @@
+//! Verification hooks. Only compiled with `--cfg regexml_verif`; not part of
+//! the public API of the crate.
+#![allow(missing_docs)]
+
+use std::cell::Cell;
+
+use crate::operation::{Operation, OperationControl};
+use crate::re_program::OPT_HASBOL;
+use crate::Regex;
+
+thread_local! {
+    static OPTIMIZATIONS_DISABLED: Cell<bool> = const { Cell::new(false) };
+    static FORCE_PROGRESS_CUTOFFS: Cell<u64> = const { Cell::new(0) };
+}
+
+/// While set (per thread), `Regex::xpath` / `Regex::xsd` compile without
+/// `Operation::optimize` and without any of the search shortcuts of
+/// `ReProgram::new`.
+pub fn set_optimizations_disabled(disabled: bool) {
+    OPTIMIZATIONS_DISABLED.with(|c| c.set(disabled));
+}
+
+pub(crate) fn optimizations_disabled() -> bool {
+    OPTIMIZATIONS_DISABLED.with(|c| c.get())
+}
+
+pub(crate) fn note_force_progress_cutoff() {
+    FORCE_PROGRESS_CUTOFFS.with(|c| c.set(c.get() + 1));
+}
+
+/// Number of times (on this thread, since the last call) a
+/// `ForceProgressIterator` cut its base iterator off.
+pub fn take_force_progress_cutoffs() -> u64 {
+    FORCE_PROGRESS_CUTOFFS.with(|c| c.replace(0))
+}
+
+/// Which compile-time shortcuts a compiled regex carries.
+#[derive(Debug, Clone, PartialEq, Eq)]
+pub struct Facts {
+    pub prefix: Option<String>,
+    pub initial_char_class: bool,
+    pub preconditions: usize,
+    pub has_bol: bool,
+    pub minimum_length: usize,
+    pub unambiguous_repeats: usize,
+    /// names of the operators of the program, in pre-order
+    pub operators: Vec<&'static str>,
+}
+
+fn walk(op: &Operation, names: &mut Vec<&'static str>) {
+    names.push(match op {
+        Operation::Bol(_) => "Bol",
+        Operation::Atom(_) => "Atom",
+        Operation::BackReference(_) => "BackReference",
+        Operation::Capture(_) => "Capture",
+        Operation::Choice(_) => "Choice",
+        Operation::EndProgram(_) => "EndProgram",
+        Operation::Eol(_) => "Eol",
+        Operation::Nothing(_) => "Nothing",
+        Operation::Repeat(_) => "Repeat",
+        Operation::Sequence(_) => "Sequence",
+        Operation::CharClass(_) => "CharClass",
+        Operation::GreedyFixed(_) => "GreedyFixed",
+        Operation::ReluctantFixed(_) => "ReluctantFixed",
+        Operation::UnambiguousRepeat(_) => "UnambiguousRepeat",
+    });
+    for child in op.children() {
+        walk(&child, names);
+    }
+}
+
+pub fn facts(regex: &Regex) -> Facts {
+    let program = regex.verif_program();
+    let mut operators = Vec::new();
+    walk(&program.operation, &mut operators);
+    Facts {
+        prefix: program.prefix.as_ref().map(|p| p.iter().collect()),
+        initial_char_class: program.initial_char_class.is_some(),
+        preconditions: program.preconditions.len(),
+        has_bol: program.optimization_flags & OPT_HASBOL != 0,
+        minimum_length: program.minimum_length,
+        unambiguous_repeats: operators
+            .iter()
+            .filter(|n| **n == "UnambiguousRepeat")
+            .count(),
+        operators,
+    }
+}
